@@ -26,7 +26,7 @@ COMPONENTS = {'real': ['enspara.cluster.kcenters/kmedoids/hybrid', 'enspara.mpi.
                        'enspara.ra', 'compiled libdist kernels', 'numpy', 'PyTables/mdtraj (loaders)'],
               'stub': ['MPI library (simmpi: fake mpi4py, baton-passing rank threads)',
                        'heap allocator (simalloc poison + red zones)', 'OpenMP runtime (simgomp, team of 1 here)']}
-ASSUMPTIONS = ['for md.Trajectory data the metric model is mdtraj.rmsd itself on the whole data set; two evaluations of one RMSD may differ by sqrt(d^2 + 4e-6) - d (batch-dependent last bits of the float32 routine; a frame against itself gives 0..4e-4), reported values are compared with that allowance, near-ties inside it make a scenario not tie-free, and because mdtraj.rmsd moves the frames it is given to their centroid in place, centres and the caller\'s data are compared up to that translation', 'collective semantics follow the mpi4py documentation (no real MPI in the sandbox to cross-check)',
+ASSUMPTIONS = ['for md.Trajectory data the metric model is mdtraj.rmsd itself on the whole data set; two evaluations of one RMSD may differ by sqrt(d^2 + 2e-4) - d (the float32 routine evaluated on frames already moved to their centroid, or in another batch; measured up to 1e-5 in the mean squared deviation, heavy-tailed), reported values are compared with that allowance, near-ties inside it make a scenario not tie-free, and because mdtraj.rmsd moves the frames it is given to their centroid in place, centres and the caller\'s data are compared up to that translation', 'collective semantics follow the mpi4py documentation (no real MPI in the sandbox to cross-check)',
                'rank crash / message loss are not injected: MPI has no semantics for them',
                'bit-for-bit equality with the serial run is demanded only on scenarios the float64 model classifies '
                'as tie-free (every farthest-point choice and stopping test unambiguous beyond 1e-6 relative)']
@@ -205,7 +205,7 @@ def check_world(ctx, P, outs, snaps, locals_, algo, n_iters, serial, g, tie_free
             c0 = M.cost(serial.distances)
             c1 = M.cost(d)
             # reported RMSD values carry batch-dependent last bits (serial and distributed runs evaluate other batches)
-            require(c1 <= c0 * (1 + (1e-5 if P.metric_name == 'rmsd' else 1e-12)) + 1e-300, 'cost_increased',
+            require(c1 <= c0 * (1 + (2e-3 if P.metric_name == 'rmsd' else 1e-12)) + 1e-300, 'cost_increased',
                     lambda: 'distributed k-medoids raised the cost %.17g -> %.17g' % (c0, c1))
         require(len(set(c)) == len(c), 'duplicate_center', lambda: 'centres %s' % c)
         ctx.hit('kmedoids_stage_checked')
